@@ -20,7 +20,7 @@ impl EmptyMatcher {
 }
 
 impl Matcher for EmptyMatcher {
-    fn matches(&self, file_info: &WalkEntry, _: &mut MatcherIO) -> bool {
+    fn matches(&self, file_info: &WalkEntry, matcher_io: &mut MatcherIO) -> bool {
         if file_info.file_type().is_file() {
             match file_info.metadata() {
                 Ok(meta) => meta.len() == 0,
@@ -44,6 +44,7 @@ impl Matcher for EmptyMatcher {
                         file_info.path().display(),
                         err
                     );
+                    matcher_io.set_exit_code(1);
                     false
                 }
             }
